@@ -26,7 +26,7 @@ REG.schema('BaseServer', module='base_server', fields=dict(
     handlers=Dict(STR, Opaque('Handler')), log_message_keys=Opaque('Set'),
     start_service_task=BOOL, service_task_handle=ANY, service_task_event=ANY,
     logger=Opaque('Logger'), async_mode=STR, transports=List(STR), sequence_number=INT,
-    _async=RecF(websocket=ANY, queue=Opaque('QueueClass'), queue_empty=Opaque('ExcClass'),
+    _async=RecF(websocket=Opaque('WSClass', True), queue=Opaque('QueueClass'), queue_empty=Opaque('ExcClass'),
                 thread=Opaque('ThreadClass'), event=Opaque('EventClass'),
                 sleep=Opaque('SleepFn'), translate_request=Opaque('Fn'),
                 make_response=Opaque('Fn'))))
@@ -53,3 +53,5 @@ REG.ghost('spawned', List(SP_T))      # background tasks started, in order
 REG.ghost('now', REAL)                # ghost clock (time.time())
 REG.ghost('reads', List(INT))         # sizes passed to wsgi.input.read
 REG.ghost('received', List(Ref('Packet')))   # packets handed to Socket.receive, in order
+from pyvc.lib_rt import FR_T  # noqa: E402
+REG.ghost('ws_log', List(FR_T))       # frames read from / written to the WebSocket, interleaved
